@@ -27,10 +27,11 @@ MAX_TERMS = 400
 
 
 class Pol:
-    def __init__(self, P, func, opaque=(), track_inv=False):
+    def __init__(self, P, func, opaque=(), track_inv=False, track_coef=False):
         self.P = P
         self.f = func
         self.track_inv = track_inv  # atoms met in a denominator are written "1/atom"
+        self.track_coef = track_coef  # numeric literals other than 0, 1, -1 become atoms "#<magnitude>"
         self.opaque = set(opaque)  # local names kept as atoms instead of being substituted
         self.du = get_defuse(func, P)
         self.unknown = []  # opaque constructs met
@@ -46,6 +47,8 @@ class Pol:
             if isinstance(e.value, (int, float)) and not isinstance(e.value, bool):
                 if e.value == 0:
                     return []
+                if self.track_coef and abs(e.value) != 1:
+                    return [(1 if e.value > 0 else -1, frozenset({f"#{abs(e.value):g}"}))]
                 return [(1 if e.value > 0 else -1, frozenset())]
             return []
         if isinstance(e, ast.UnaryOp):
@@ -311,6 +314,26 @@ def check_inverse(R, rule, fkey, terms, inverted=(), direct=(), what="", line=No
         R.violation(rule, fkey, what or "numerator / denominator placement", "; ".join(f"{x} {why}" for x, why in sorted(set(bad))[:4]), line)
     elif n:
         R.ok(rule, fkey, what or "numerator / denominator placement", f"{n} atom occurrences in the expected position", line)
+    return n
+
+
+def check_coefficients(R, rule, fkey, terms, expect, what="", line=None):
+    """With Pol(track_coef=True).  expect: list of (patterns that select a term, coefficient or None).  The selected terms
+    must carry exactly that literal coefficient (None: no literal other than 1)."""
+    bad = []
+    n = 0
+    for pats, coef in expect:
+        sel = [(s, a) for s, a in terms if all(any(_match(x[2:] if x.startswith("1/") else x, [p]) for x in a) for p in pats)]
+        for s, a in sel:
+            n += 1
+            cs = sorted(x for x in a if x.startswith("#"))
+            want = [] if coef is None else [f"#{coef:g}"]
+            if cs != want:
+                bad.append(f"term with {'·'.join(pats)} has coefficient {'·'.join(c[1:] for c in cs) or '1'}, the model equation has {coef if coef is not None else 1}")
+    if bad:
+        R.violation(rule, fkey, what or "literal coefficients", "; ".join(sorted(set(bad))[:3]), line)
+    elif n:
+        R.ok(rule, fkey, what or "literal coefficients", f"{n} terms with the expected coefficient", line)
     return n
 
 
